@@ -14,6 +14,8 @@ def run(ctx):
     r = ctx.run
     r.explanation = EXPLANATION
     pm.run_all(ctx)
+    from . import c16
+    c16.tree_contracts(r, ctx.lib)
     nondet.scan_shared_state(r, ctx.lib)
     c15.check_merge(r, ctx.lib)
     results.scan_results(r, ctx.lib)
